@@ -7,9 +7,8 @@
 //!
 //!  * `ScopeGraph::resolve_name` (src/typechecker/scope.rs): no longer a fact but
 //!    the whole loop body, transliterated by target `scoperesolve` (end of this file);
-//!  * `resolve_module_part_of_path` (src/typechecker/expr.rs): the values given
-//!    to `recurse` (initially, after a leading `super`, after every segment), and
-//!    that a leading `pkg` is looked up from the global scope;
+//!  * `resolve_module_part_of_path` (src/typechecker/expr.rs): no longer facts but
+//!    the whole function, transliterated by target `scopepath` (end of this file);
 //!  * `declare_modules` (src/typechecker/mod.rs): the parent of a module scope;
 //!  * `TypeInfo::full_name` (src/typechecker/info.rs): the separator;
 //!  * `Module::get_function` (src/codegen/mod.rs): the prefix of the looked-up name;
@@ -32,6 +31,7 @@ pub const TARGETS: &[Target] = &[
     ("scopefacts", "ScopeFacts", scopefacts as Gen),
     ("scopeimports", "ScopeImportsLoop", scopeimports as Gen),
     ("scoperesolve", "ScopeResolveLoop", scoperesolve as Gen),
+    ("scopepath", "ScopePathLoop", scopepath as Gen),
 ];
 
 fn codes(s: &str) -> String {
@@ -40,25 +40,6 @@ fn codes(s: &str) -> String {
 
 fn flat(t: &impl ToTokens) -> String {
     t.to_token_stream().to_string().replace(' ', "")
-}
-
-/// every value given to the variable `recurse`, in source order
-struct Recurse(Vec<String>);
-impl<'ast> Visit<'ast> for Recurse {
-    fn visit_local(&mut self, l: &'ast syn::Local) {
-        if flat(&l.pat).trim_start_matches("mut") == "recurse" {
-            if let Some(init) = &l.init {
-                self.0.push(flat(&init.expr));
-            }
-        }
-        syn::visit::visit_local(self, l);
-    }
-    fn visit_expr_assign(&mut self, a: &'ast syn::ExprAssign) {
-        if flat(&a.left) == "recurse" {
-            self.0.push(flat(&a.right));
-        }
-        syn::visit::visit_expr_assign(self, a);
-    }
 }
 
 /// string literals compared (`==` / `!=`) with the expression named `lhs`
@@ -192,27 +173,6 @@ fn one<T: Clone>(what: &str, v: &[T]) -> Result<T, String> {
 }
 
 fn scopefacts(repo: &Path) -> Result<String, String> {
-    // --- resolve_module_part_of_path
-    let expr_rs = find::parse(repo, "src/typechecker/expr.rs")?;
-    let f = find::func(&expr_rs, "resolve_module_part_of_path", None)?;
-    let mut r = Recurse(vec![]);
-    r.visit_block(&f.block);
-    let mut recurse = vec![];
-    for v in &r.0 {
-        match v.as_str() {
-            "true" => recurse.push("true"),
-            "false" => recurse.push("false"),
-            other => return Err(format!("resolve_module_part_of_path: `recurse` is given `{other}`")),
-        }
-    }
-    // `pkg` at the start of a path: looked up from the global scope
-    let text = flat(&f.block);
-    let pkg_global = text.contains("ifrecurse&&ident.node==\"pkg\".into(){scope=ScopeRef::GLOBAL;}");
-    let uses = flat(&f.block).matches("resolve_name(scope,ident,recurse)").count();
-    if uses != 1 {
-        return Err(format!("resolve_module_part_of_path: expected one `resolve_name(scope, ident, recurse)`, found {uses}"));
-    }
-
     // --- declare_modules
     let mod_rs = find::parse(repo, "src/typechecker/mod.rs")?;
     let f = find::func(&mod_rs, "declare_modules", None)?;
@@ -291,8 +251,6 @@ fn scopefacts(repo: &Path) -> Result<String, String> {
 
     let mut out = String::new();
     out.push_str("/- GENERATED by /verif/extract from src/typechecker/{scope,expr,mod,info}.rs, src/codegen/mod.rs, src/file_tree.rs — do not edit. -/\nnamespace RotoV.Gen.ScopeFacts\n\n");
-    out.push_str(&format!("/-- the values `resolve_module_part_of_path` gives to `recurse`, in source order -/\ndef recurseValues : List Bool := [{}]\n\n", recurse.join(", ")));
-    out.push_str(&format!("/-- a first segment `pkg` (not after `super`) is looked up from `ScopeRef::GLOBAL` -/\ndef pkgFromGlobal : Bool := {pkg_global}\n\n"));
     out.push_str(&format!("/-- first argument of `wrap` for a script module's scope (character codes) -/\ndef moduleScopeParent : List Nat := {}\n\n", codes(&module_parent)));
     out.push_str(&format!("def fullNameSeparator : List Nat := {}\n\n", codes(&sep)));
     out.push_str(&format!("/-- `get_function` looks up this prefix followed by the given name -/\ndef getFunctionPrefix : List Nat := {}\n\n", codes(&prefix)));
@@ -704,5 +662,203 @@ fn scoperesolve(repo: &Path) -> Result<String, String> {
     out.push_str("/- GENERATED by /verif/extract from src/typechecker/scope.rs — do not edit. -/\nimport RotoV.Model.ScopeResolveLoop\n\nnamespace RotoV.Gen.ScopeResolveLoop\nopen RotoV.Scope.RLoop\n\n");
     out.push_str(&format!("/-- the body of the `loop` of `ScopeGraph::resolve_name` -/\ndef resolveNameBody : RBlock :=\n  {body}\n\n"));
     out.push_str("end RotoV.Gen.ScopeResolveLoop\n");
+    Ok(out)
+}
+
+// ---------------------------------------------------------------- `resolve_module_part_of_path`
+//
+// `TypeChecker::resolve_module_part_of_path` (src/typechecker/expr.rs) is
+// transliterated into the little language of `lean/RotoV/Model/ScopePathLoop.lean`
+// (`PBlock` / `PExpr`): the body of the `while ident.node == "super".into()`
+// loop, the statements between the loops, the body of the `loop`.
+// `RotoV.C13.resolve_module_part_as_modelled` proves that they mean
+// `Scope.resolveModulePart` of the hand model.
+
+struct PathTr {
+    env: Vec<String>,
+}
+
+const IS_SUPER: &str = "ident.node==\"super\".into()";
+const IS_PKG: &str = "ident.node==\"pkg\".into()";
+
+impl PathTr {
+    fn var(&self, e: &syn::Expr) -> Result<String, String> {
+        let n = flat(e);
+        match (e, self.env.iter().rposition(|v| *v == n)) {
+            (syn::Expr::Path(_), Some(i)) => Ok(format!("(.var {i})")),
+            _ => Err(format!("resolve_module_part_of_path: `{n}` is not a local bound by `let Some(…) = … else`")),
+        }
+    }
+
+    fn opt_expr(&self, e: &syn::Expr) -> Result<String, String> {
+        let txt = flat(e);
+        match txt.as_str() {
+            "self.type_info.scope_graph.parent_module(scope)" => Ok(".parentModule".into()),
+            "self.type_info.scope_graph.resolve_name(scope,ident,recurse)" => Ok(".resolveName".into()),
+            "idents.next()" => Ok(".nextIdent".into()),
+            _ => match e {
+                syn::Expr::Field(f) if flat(&f.member) == "scope" => Ok(format!("(.declScope {})", self.var(&f.base)?)),
+                _ => Err(format!("resolve_module_part_of_path: expression `{txt}` outside the subset")),
+            },
+        }
+    }
+
+    fn block(&mut self, stmts: &[syn::Stmt]) -> Result<String, String> {
+        let Some((st, rest)) = stmts.split_first() else { return Ok(".done".into()) };
+        let depth = self.env.len();
+        let out = self.stmt(st, rest);
+        self.env.truncate(depth);
+        out
+    }
+
+    fn ret(&self, e: &syn::Expr) -> Result<String, String> {
+        let bad = || format!("resolve_module_part_of_path: `return {}` outside the subset", flat(e));
+        let syn::Expr::Call(c) = e else { return Err(bad()) };
+        if c.args.len() != 1 {
+            return Err(bad());
+        }
+        match (flat(&c.func).as_str(), &c.args[0]) {
+            ("Ok", syn::Expr::Tuple(t)) if t.elems.len() == 2 && flat(&t.elems[0]) == "ident" => Ok(format!("(.retOk {})", self.var(&t.elems[1])?)),
+            ("Err", syn::Expr::MethodCall(m)) if flat(&m.receiver) == "self" && m.method == "error_not_defined" && m.args.len() == 1 && flat(&m.args[0]) == "ident" => {
+                Ok(".retNotDefined".into())
+            }
+            ("Err", syn::Expr::MethodCall(m)) if flat(&m.receiver) == "self" && m.method == "error_simple" => {
+                let mut lits = MethodLitsAll(vec![]);
+                lits.visit_expr_method_call(m);
+                if lits.0.iter().any(|l| l.contains("too many leading `super` keywords")) {
+                    Ok(".retTooManySuper".into())
+                } else {
+                    Err(bad())
+                }
+            }
+            _ => Err(bad()),
+        }
+    }
+
+    fn stmt(&mut self, st: &syn::Stmt, rest: &[syn::Stmt]) -> Result<String, String> {
+        match st {
+            syn::Stmt::Local(l) if is_hook(&l.attrs) => self.block(rest),
+            syn::Stmt::Macro(m) if is_hook(&m.attrs) => self.block(rest),
+            syn::Stmt::Macro(m) if m.mac.path.is_ident("unreachable") && m.mac.tokens.is_empty() => {
+                if !rest.is_empty() {
+                    return Err("resolve_module_part_of_path: statements after `unreachable!()`".into());
+                }
+                Ok(".unreachable".into())
+            }
+            syn::Stmt::Local(l) => {
+                // `let Some(v) = e else { … };`
+                let bad = || format!("resolve_module_part_of_path: `{}` outside the subset (only `let Some(v) = e else {{ … }};`)", flat(l));
+                let syn::Pat::TupleStruct(ts) = &l.pat else { return Err(bad()) };
+                let Some(init) = &l.init else { return Err(bad()) };
+                let Some((_, els)) = &init.diverge else { return Err(bad()) };
+                let syn::Expr::Block(eb) = &**els else { return Err(bad()) };
+                if flat(&ts.path) != "Some" || ts.elems.len() != 1 {
+                    return Err(bad());
+                }
+                let syn::Pat::Ident(pi) = &ts.elems[0] else { return Err(bad()) };
+                if pi.by_ref.is_some() || pi.mutability.is_some() || pi.subpat.is_some() {
+                    return Err(bad());
+                }
+                let e = self.opt_expr(&init.expr)?;
+                let els = self.block(&eb.block.stmts)?;
+                self.env.push(pi.ident.to_string());
+                Ok(format!("(.letElse {e} {els} {})", self.block(rest)?))
+            }
+            syn::Stmt::Expr(e, _) => match e {
+                syn::Expr::If(i) => {
+                    if i.else_branch.is_some() {
+                        return Err(format!("resolve_module_part_of_path: `if … else` outside the subset: `{}`", flat(&i.cond)));
+                    }
+                    let c = flat(&i.cond);
+                    let head = if c == IS_SUPER {
+                        ".ifSuper"
+                    } else if c == format!("recurse&&{IS_PKG}") {
+                        ".ifRecurseAndPkg"
+                    } else {
+                        return Err(format!("resolve_module_part_of_path: condition `{c}` outside the subset"));
+                    };
+                    let t = self.block(&i.then_branch.stmts)?;
+                    Ok(format!("({head} {t} {})", self.block(rest)?))
+                }
+                syn::Expr::Return(r) => {
+                    if !rest.is_empty() {
+                        return Err("resolve_module_part_of_path: statements after `return`".into());
+                    }
+                    let x = r.expr.as_deref().ok_or("resolve_module_part_of_path: bare `return`")?;
+                    self.ret(x)
+                }
+                syn::Expr::Assign(a) => {
+                    let k = |me: &mut Self| me.block(rest);
+                    match (flat(&a.left).as_str(), flat(&a.right).as_str()) {
+                        ("scope", "ScopeRef::GLOBAL") => Ok(format!("(.setScopeGlobal {})", k(self)?)),
+                        ("scope", _) => {
+                            let v = self.var(&a.right)?;
+                            Ok(format!("(.setScope {v} {})", k(self)?))
+                        }
+                        ("ident", _) => {
+                            let v = self.var(&a.right)?;
+                            Ok(format!("(.setIdent {v} {})", k(self)?))
+                        }
+                        ("recurse", b @ ("true" | "false")) => {
+                            let b = b.to_string();
+                            Ok(format!("(.setRecurse {b} {})", k(self)?))
+                        }
+                        (l, r) => Err(format!("resolve_module_part_of_path: assignment `{l} = {r}` outside the subset")),
+                    }
+                }
+                other => Err(format!("resolve_module_part_of_path: statement `{}` outside the subset", flat(other))),
+            },
+            other => Err(format!("resolve_module_part_of_path: statement `{}` outside the subset", flat(other))),
+        }
+    }
+}
+
+/// every string literal below an expression
+struct MethodLitsAll(Vec<String>);
+impl<'ast> Visit<'ast> for MethodLitsAll {
+    fn visit_lit_str(&mut self, s: &'ast syn::LitStr) {
+        self.0.push(s.value());
+    }
+}
+
+fn scopepath(repo: &Path) -> Result<String, String> {
+    let expr_rs = find::parse(repo, "src/typechecker/expr.rs")?;
+    let f = find::func(&expr_rs, "resolve_module_part_of_path", None)?;
+    let params: Vec<String> = f.sig.inputs.iter().filter_map(|a| match a {
+        syn::FnArg::Typed(t) => Some(flat(&t.pat)),
+        _ => None,
+    }).collect();
+    if params != ["mutscope", "mutidents"] {
+        return Err(format!("resolve_module_part_of_path: parameters {params:?}, expected mut scope, mut idents"));
+    }
+    let stmts: Vec<&syn::Stmt> = f.block.stmts.iter().filter(|s| !matches!(s, syn::Stmt::Local(l) if is_hook(&l.attrs))).collect();
+    let [first, second, third, between @ .., last] = stmts.as_slice() else {
+        return Err("resolve_module_part_of_path: fewer than four statements".into());
+    };
+    if flat(*first) != "letmutident=idents.next().unwrap();" {
+        return Err(format!("resolve_module_part_of_path: does not start with `let mut ident = idents.next().unwrap();` but `{}`", flat(*first)));
+    }
+    let recurse0 = match flat(*second).as_str() {
+        "letmutrecurse=true;" => "true",
+        "letmutrecurse=false;" => "false",
+        other => return Err(format!("resolve_module_part_of_path: second statement `{other}` is not `let mut recurse = <bool>;`")),
+    };
+    let w = match third {
+        syn::Stmt::Expr(syn::Expr::While(w), _) if w.label.is_none() && flat(&w.cond) == IS_SUPER => PathTr { env: vec![] }.block(&w.body.stmts)?,
+        other => return Err(format!("resolve_module_part_of_path: third statement is not `while {IS_SUPER}` but `{}`", flat(*other).chars().take(80).collect::<String>())),
+    };
+    let between: Vec<syn::Stmt> = between.iter().map(|s| (*s).clone()).collect();
+    let s = PathTr { env: vec![] }.block(&between)?;
+    let l = match last {
+        syn::Stmt::Expr(syn::Expr::Loop(l), _) if l.label.is_none() => PathTr { env: vec![] }.block(&l.body.stmts)?,
+        _ => return Err("resolve_module_part_of_path: the last statement is not `loop { … }`".into()),
+    };
+    let mut out = String::new();
+    out.push_str("/- GENERATED by /verif/extract from src/typechecker/expr.rs — do not edit. -/\nimport RotoV.Model.ScopePathLoop\n\nnamespace RotoV.Gen.ScopePathLoop\nopen RotoV.Scope.PLoop\n\n");
+    out.push_str(&format!("/-- `let mut recurse = …;` -/\ndef initialRecurse : Bool := {recurse0}\n\n"));
+    out.push_str(&format!("/-- the body of `while ident.node == \"super\".into()` -/\ndef whileBody : PBlock :=\n  {w}\n\n"));
+    out.push_str(&format!("/-- the statements between the two loops -/\ndef betweenBody : PBlock :=\n  {s}\n\n"));
+    out.push_str(&format!("/-- the body of the final `loop` -/\ndef loopBody : PBlock :=\n  {l}\n\n"));
+    out.push_str("end RotoV.Gen.ScopePathLoop\n");
     Ok(out)
 }
